@@ -497,11 +497,137 @@ package reflect
 // ---------------------------------------------------------------------------
 // reflect.go : API entry points
 
-// Descriptor construction is not yet under contract: assumed to return a well-formed descriptor (A-WF).
+// --- descriptor caches (desc.go, descmap.go): C07 / C13 -------------------------------------
+// sdOfT(st): THE descriptor of struct type st - what newStructDesc builds for it (A-WF: well-formed,
+// of the type's size). Every cache is proved to hold nothing else, so the descriptor an API call
+// uses does not depend on which calls came before.
 //@ spec uf func rvPointeeSize(v reflect.Value) Int
-//@ trusted func reflect.getOrcreateStructDesc(rv reflect.Value) (sd *structDesc, err error)
-//@   ensures err == nil ==> wfSD(sd) && sdSize(sd) == rvPointeeSize(rv)
+//@ spec uf func sdOfT(st reflect.Type) *structDesc
+//@ spec uf func typeOfAbi(k Int) reflect.Type
+//@ spec uf func rtSize(t reflect.Type) Int
+//@ axiom abi_inj: forall t reflect.Type :: {abiOf(t)} t != nil ==> typeOfAbi(abiOf(t)) == t && abiOf(t) != 0
+//@ spec func structT(t reflect.Type) reflect.Type = rtKind(t) == reflect.Ptr ? rtElem(t) : t
+//@ spec func structish(t reflect.Type) bool = t != nil && (rtKind(t) == reflect.Struct || (rtKind(t) == reflect.Ptr && rtKind(rtElem(t)) == reflect.Struct))
+//@ spec func goodSD(sd *structDesc, st reflect.Type) bool = sd == sdOfT(st) && wfSD(sd) && sdSize(sd) == rtSize(st)
+//@ spec func sdFor(v reflect.Value) *structDesc = sdOfT(structT(rvType(v)))
+// A-REFLECT: sizes seen through a Value are the sizes of its type
+//@ axiom rv_sizes: forall v reflect.Value :: {rvType(v)} rvKind(v) != reflect.Invalid ==> rvType(v) != nil && rtKind(rvType(v)) == rvKind(v) && rvSize(v) == rtSize(rvType(v)) && (rvKind(v) == reflect.Ptr ==> rvPointeeSize(v) == rtSize(rtElem(rvType(v))))
+
+// sds (descmap.go): abstract view $sds[k] = descriptor registered for abi type k (Get/Set assumed: A-SDS)
+//@ const ghost $sds = (Array Int Int)
+//@ trusted func reflect.(*mapStructDesc).Get(m *mapStructDesc, abiType uintptr) (sd *structDesc)
+//@   ensures sd == $sds[abiType]
+//@ trusted func reflect.(*mapStructDesc).Set(m *mapStructDesc, abiType uintptr, sd *structDesc)
+//@   modifies $sds
+//@   ensures $sds == store(old($sds), abiType, sd)
+//@ macro sdsinv = $sds[0] == 0 && (forall k Int :: {$sds[k]} $sds[k] != 0 ==> goodSD($sds[k], structT(typeOfAbi(k))) && structish(typeOfAbi(k)))
+//@ macro sdsstable = forall k Int :: {$sds[k]} old($sds[k]) != 0 ==> $sds[k] == old($sds[k])
+
+// prefetchStructDescCache maps a struct type to its descriptor as soon as the descriptor exists,
+// so that recursive types terminate. $complete: descriptors whose nested descriptors have all
+// been fetched; $inprog: types whose descriptor is being prefetched further up the call stack.
+// Invariant: every cached descriptor is THE descriptor of its type, and complete or in progress.
+// A failed build leaves no trace: the entry of the type being built is removed again, every entry
+// that existed before is unchanged, and whatever else was added is complete.
+//@ const ghost $complete = (Array Int Bool)
+//@ const ghost $inprog = (Array Int Bool)
+//@ macro pfinv = prefetchStructDescCache != nil && (forall k reflect.Type :: {maphas(prefetchStructDescCache, k)} maphas(prefetchStructDescCache, k) ==> mapget(prefetchStructDescCache, k) != nil && goodSD(mapget(prefetchStructDescCache, k), structT(k)) && ($complete[mapget(prefetchStructDescCache, k)] || $inprog[k]))
+//@ macro pfstable = forall k reflect.Type :: {maphas(prefetchStructDescCache, k)} old(maphas(prefetchStructDescCache, k)) ==> maphas(prefetchStructDescCache, k) && mapget(prefetchStructDescCache, k) == old(mapget(prefetchStructDescCache, k))
+//@ macro pfclean = forall k reflect.Type :: {maphas(prefetchStructDescCache, k)} maphas(prefetchStructDescCache, k) && !old(maphas(prefetchStructDescCache, k)) ==> $complete[mapget(prefetchStructDescCache, k)]
+//@ macro pfmono = forall a Int :: {$complete[a]} old($complete[a]) ==> $complete[a]
+//@ macro noinprog = forall k reflect.Type :: {$inprog[k]} !$inprog[k]
+
+// newStructDesc is not yet under contract (A-WF): THE descriptor of the struct type, fresh, or an error;
+// it does not touch the two caches above
+//@ trusted func reflect.newStructDesc(t reflect.Type) (sd *structDesc, err error)
+//@   modifies $brk, $maps
+//@   ensures old($brk) <= $brk
+//@   ensures err == nil ==> sd != nil && old($brk) <= sd && !$complete[sd] && goodSD(sd, structT(t))
+//@   ensures err == nil ==> forall i int :: {sd.fields[i]} 0 <= i && i < len(sd.fields) ==> sd.fields[i] != nil && sd.fields[i].Type != nil && wfTshape(sd.fields[i].Type)
 //@   ensures err != nil ==> sd == nil
+//@   ensures forall k reflect.Type :: {maphas(prefetchStructDescCache, k)} maphas(prefetchStructDescCache, k) == old(maphas(prefetchStructDescCache, k)) && mapget(prefetchStructDescCache, k) == old(mapget(prefetchStructDescCache, k))
+
+//@ func newStructDescAndPrefetch(t reflect.Type) (sd *structDesc, err error)
+//@   requires c07_inv: $(pfinv)
+//@   modifies $maps, $brk, $complete, $inprog, "H.tType.Sd"
+//@   after newStructDesc ghost $inprog = (res_err == nil ? store($inprog, t, true) : $inprog)
+//@   after prefetchSubStructDesc ghost $complete = (res_err == nil ? store($complete, sd, true) : $complete)
+//@   after prefetchSubStructDesc ghost $inprog = store($inprog, t, old($inprog[t]))
+//@   ensures c07_inv: $(pfinv)
+//@   ensures c07_stable: $(pfstable)
+//@   ensures c07_mono: $(pfmono)
+//@   ensures c13_clean: $(pfclean)
+//@   ensures c13_removed: err != nil ==> sd == nil && (maphas(prefetchStructDescCache, t) <==> old(maphas(prefetchStructDescCache, t)))
+//@   ensures c07_cached: err == nil ==> sd != nil && maphas(prefetchStructDescCache, t) && mapget(prefetchStructDescCache, t) == sd && goodSD(sd, structT(t))
+//@   ensures c07_inprog: forall k reflect.Type :: {$inprog[k]} $inprog[k] == old($inprog[k])
+//@   ensures old($brk) <= $brk
+
+//@ func prefetchSubStructDesc(d *structDesc) (err error)
+//@   requires d != nil
+//@   requires forall i int :: {d.fields[i]} 0 <= i && i < len(d.fields) ==> d.fields[i] != nil && d.fields[i].Type != nil && wfTshape(d.fields[i].Type)
+//@   requires c07_inv: $(pfinv)
+//@   modifies $maps, $brk, $complete, $inprog, "H.tType.Sd"
+//@   ensures c07_inv: $(pfinv)
+//@   ensures c07_stable: $(pfstable)
+//@   ensures c07_mono: $(pfmono)
+//@   ensures c13_clean: $(pfclean)
+//@   ensures c07_inprog: forall k reflect.Type :: {$inprog[k]} $inprog[k] == old($inprog[k])
+//@   ensures old($brk) <= $brk
+//@   loop 0 invariant c07_inv: $(pfinv)
+//@   loop 0 invariant c07_stable: $(pfstable)
+//@   loop 0 invariant c07_mono: $(pfmono)
+//@   loop 0 invariant c13_clean: $(pfclean)
+//@   loop 0 invariant c07_inprog: forall k reflect.Type :: {$inprog[k]} $inprog[k] == old($inprog[k])
+
+//@ func fetchStructDesc(t *tType) (err error)
+//@   requires wfTshape(t)
+//@   requires c07_inv: $(pfinv)
+//@   modifies $maps, $brk, $complete, $inprog, "H.tType.Sd"
+//@   ensures c07_inv: $(pfinv)
+//@   ensures c07_stable: $(pfstable)
+//@   ensures c07_mono: $(pfmono)
+//@   ensures c13_clean: $(pfclean)
+//@   ensures c07_inprog: forall k reflect.Type :: {$inprog[k]} $inprog[k] == old($inprog[k])
+//@   ensures old($brk) <= $brk
+
+// package-level error values are created by errors.New in the initialiser and never reassigned (A-INIT)
+//@ axiom errType_nonnil: errType != nil
+//@   opt always
+
+//@ func getStructDesc(rv reflect.Value) (sd *structDesc)
+//@   requires c07_sds: $(sdsinv)
+//@   modifies nothing
+//@   ensures c07_hit: sd != nil ==> rvKind(rv) != reflect.Invalid && structish(rvType(rv)) && goodSD(sd, structT(rvType(rv)))
+
+// createStructDesc: anything that is not a struct or a pointer to a struct - including the zero
+// reflect.Value of a nil interface - is answered with an error, never a panic (C13); a failed
+// build registers nothing (C13/C07); what gets registered is THE descriptor of the type (C07).
+//@ func createStructDesc(rv reflect.Value) (sd *structDesc, err error)
+//@   requires c07_sds: $(sdsinv)
+//@   requires c07_inv: $(pfinv)
+//@   requires c07_idle: $(noinprog)
+//@   modifies $maps, $complete, $inprog, "H.tType.Sd", $sds
+//@   ensures c07_sds: $(sdsinv)
+//@   ensures c07_inv: $(pfinv)
+//@   ensures c07_idle: $(noinprog)
+//@   ensures c07_stable: $(sdsstable)
+//@   ensures c13_reject: rvKind(rv) == reflect.Invalid || !structish(rvType(rv)) ==> err != nil
+//@   ensures c13_nothing: err != nil ==> sd == nil && $sds == old($sds)
+//@   ensures c07_the: err == nil ==> sd != nil && rvKind(rv) != reflect.Invalid && goodSD(sd, structT(rvType(rv)))
+//@   ensures old($brk) <= $brk
+
+//@ func getOrcreateStructDesc(rv reflect.Value) (sd *structDesc, err error)
+//@   requires c07_sds: $(sdsinv)
+//@   requires c07_inv: $(pfinv)
+//@   requires c07_idle: $(noinprog)
+//@   modifies $maps, $complete, $inprog, "H.tType.Sd", $sds
+//@   ensures c07_sds: $(sdsinv)
+//@   ensures c07_inv: $(pfinv)
+//@   ensures c07_idle: $(noinprog)
+//@   ensures c07_stable: $(sdsstable)
+//@   ensures c07_the: err == nil ==> sd != nil && rvKind(rv) != reflect.Invalid && goodSD(sd, structT(rvType(rv)))
+//@   ensures err != nil ==> sd == nil
+//@   ensures old($brk) <= $brk
 
 //@ trusted func reflect.panicIfHackErr()
 
@@ -510,11 +636,15 @@ package reflect
 //@ const ghost $norewind = Bool
 //@ spec uf func anyPtr(v any) Int
 //@ spec uf func anySize(v any) Int
+//@ macro cachereq = $(sdsinv) && $(pfinv) && $(noinprog)
 //@ func Decode(b []byte, v any) (n int, err error)
+//@   requires c07_caches: $(cachereq)
+//@   ensures c07_caches: $(cachereq)
+//@   ensures c07_stable: $(sdsstable)
 //@   requires len(b) <= MAXIN && b.ptr + len(b) <= $brk && (len(b) > 0 ==> b.ptr >= 65536)
 //@   requires c16_disjoint: b.ptr + len(b) <= anyPtr(v) || anyPtr(v) + anySize(v) <= b.ptr
 //@   ensures c16_input: forall a Int :: {M[a]} b.ptr <= a && a < b.ptr + len(b) ==> M[a] == old(M[a])
-//@   modifies M, $brk, $initp
+//@   modifies M, $brk, $initp, $maps, $complete, $inprog, "H.tType.Sd", $sds
 //@   call Decode ghost lvl = 1
 //@   call Decode ghost nested = false
 //@   entry ghost $sp = 0
@@ -524,15 +654,8 @@ package reflect
 //@   after Decode ghost $sb = d.s.b
 //@   after Put ghost $norewind = (d.s.b != $sb || d.s.p >= $sp)
 //@   ensures c06_norewind: $norewind
+//@   ensures c13_arg: rvKind(rvOf(v)) != reflect.Ptr || rvIsNil(rvOf(v)) || rtKind(rtElem(rvType(rvOf(v)))) != reflect.Struct ==> err != nil && n == 0
 //@   ensures 0 <= n && n <= len(b)
-
-// Descriptor lookup / construction (cache discipline: C07; construction: A-WF)
-//@ spec uf func sdFor(v reflect.Value) *structDesc
-//@ trusted func reflect.getStructDesc(rv reflect.Value) (sd *structDesc)
-//@   ensures sd != nil ==> wfSD(sd) && sd == sdFor(rv) && sdSize(sd) == (rvKind(rv) == reflect.Struct ? rvSize(rv) : rvPointeeSize(rv))
-//@ trusted func reflect.createStructDesc(rv reflect.Value) (sd *structDesc, err error)
-//@   ensures err == nil ==> sd != nil && wfSD(sd) && sd == sdFor(rv) && sdSize(sd) == (rvKind(rv) == reflect.Struct ? rvSize(rv) : rvPointeeSize(rv))
-//@   ensures err != nil ==> sd == nil
 
 // Append: the bytes appended are the wire form WS of the struct the argument designates. For a
 // pointer argument that is the pointee; for a by-value argument it is the pooled addressable copy
@@ -540,8 +663,12 @@ package reflect
 //@ const ghost $encp = Int
 //@ func Append(b []byte, v any) (r []byte, err error)
 //@   abstract b, r
-//@   modifies $brk, $encp
+//@   requires c07_caches: $(cachereq)
+//@   ensures c07_caches: $(cachereq)
+//@   ensures c07_stable: $(sdsstable)
+//@   modifies $brk, $encp, $maps, $complete, $inprog, "H.tType.Sd", $sds
 //@   after appendStruct ghost $encp = p
+//@   ensures c13_arg: rvKind(rvOf(v)) == reflect.Invalid || !structish(rvType(rvOf(v))) ==> err != nil
 //@   ensures c02_top: err == nil ==> r == WS(sdFor(rvOf(v)), M, $encp, b)
 //@   ensures c04_len: err == nil ==> slen(r) == slen(b) + SZS(sdFor(rvOf(v)), M, $encp)
 //@   ensures c02_ptr: err == nil && rvKind(rvOf(v)) != reflect.Struct ==> $encp == anyPtr(v)
@@ -552,7 +679,10 @@ package reflect
 // it panics exactly when the descriptor cannot be built or a nested size function fails.
 //@ const ghost $szerr = Int
 //@ func EncodedSize(v any) (n int)
-//@   modifies $brk, $encp, $szerr
+//@   requires c07_caches: $(cachereq)
+//@   ensures c07_caches: $(cachereq)
+//@   ensures c07_stable: $(sdsstable)
+//@   modifies $brk, $encp, $szerr, $maps, $complete, $inprog, "H.tType.Sd", $sds
 //@   entry ghost $szerr = 0
 //@   after createStructDesc ghost $szerr = res_err
 //@   after EncodedSize ghost $encp = p
@@ -588,73 +718,6 @@ package reflect
 //@   ensures c10_default: rvKind(rvStrip(x.Default)) != reflect.Invalid ==> f.Default == rvAddr(rvStrip(x.Default)) && f.Default != nil
 //@   loop 0 invariant rvStrip(v) == rvStrip(x.Default)
 //@   loop 0 decreases rvKind(v) == reflect.Ptr ? rvDepth(v) + 1 : 0
-
-// --- struct descriptor cache used while building (desc.go) ---------------------------------
-// prefetchStructDescCache maps a struct type to its descriptor as soon as the descriptor exists,
-// so that recursive types terminate. $complete: descriptors whose nested descriptors have all
-// been fetched; $inprog: types whose descriptor is being prefetched further up the call stack.
-// Invariant: every cached descriptor is complete or in progress. A failed build leaves no
-// trace: the entry of the type being built is removed again, every entry that existed before is
-// unchanged, and whatever else was added is complete (C13: same answer on every call; C07).
-//@ const ghost $complete = (Array Int Bool)
-//@ const ghost $inprog = (Array Int Bool)
-//@ macro pfinv = forall k reflect.Type :: {maphas(prefetchStructDescCache, k)} maphas(prefetchStructDescCache, k) ==> mapget(prefetchStructDescCache, k) != nil && ($complete[mapget(prefetchStructDescCache, k)] || $inprog[k])
-//@ macro pfstable = forall k reflect.Type :: {maphas(prefetchStructDescCache, k)} old(maphas(prefetchStructDescCache, k)) ==> maphas(prefetchStructDescCache, k) && mapget(prefetchStructDescCache, k) == old(mapget(prefetchStructDescCache, k))
-//@ macro pfclean = forall k reflect.Type :: {maphas(prefetchStructDescCache, k)} maphas(prefetchStructDescCache, k) && !old(maphas(prefetchStructDescCache, k)) ==> $complete[mapget(prefetchStructDescCache, k)]
-//@ macro pfmono = forall a Int :: {$complete[a]} old($complete[a]) ==> $complete[a]
-
-// newStructDesc is not yet under contract (A-WF): a fresh descriptor or an error; it does not touch this cache
-//@ trusted func reflect.newStructDesc(t reflect.Type) (sd *structDesc, err error)
-//@   modifies $brk, $maps
-//@   ensures old($brk) <= $brk
-//@   ensures err == nil ==> sd != nil && old($brk) <= sd && !$complete[sd]
-//@   ensures err == nil ==> forall i int :: {sd.fields[i]} 0 <= i && i < len(sd.fields) ==> sd.fields[i] != nil && sd.fields[i].Type != nil && wfTshape(sd.fields[i].Type)
-//@   ensures err != nil ==> sd == nil
-//@   ensures forall k reflect.Type :: {maphas(prefetchStructDescCache, k)} maphas(prefetchStructDescCache, k) == old(maphas(prefetchStructDescCache, k)) && mapget(prefetchStructDescCache, k) == old(mapget(prefetchStructDescCache, k))
-
-//@ func newStructDescAndPrefetch(t reflect.Type) (sd *structDesc, err error)
-//@   requires prefetchStructDescCache != nil
-//@   requires c07_inv: $(pfinv)
-//@   modifies $maps, $brk, $complete, $inprog, "H.tType.Sd"
-//@   after newStructDesc ghost $inprog = (res_err == nil ? store($inprog, t, true) : $inprog)
-//@   after prefetchSubStructDesc ghost $complete = (res_err == nil ? store($complete, sd, true) : $complete)
-//@   after prefetchSubStructDesc ghost $inprog = store($inprog, t, old($inprog[t]))
-//@   ensures c07_inv: $(pfinv)
-//@   ensures c07_stable: $(pfstable)
-//@   ensures c07_mono: $(pfmono)
-//@   ensures c13_clean: $(pfclean)
-//@   ensures c13_removed: err != nil ==> sd == nil && (maphas(prefetchStructDescCache, t) <==> old(maphas(prefetchStructDescCache, t)))
-//@   ensures c07_cached: err == nil ==> sd != nil && maphas(prefetchStructDescCache, t) && mapget(prefetchStructDescCache, t) == sd
-//@   ensures c07_inprog: forall k reflect.Type :: {$inprog[k]} $inprog[k] == old($inprog[k])
-//@   ensures old($brk) <= $brk
-
-//@ func prefetchSubStructDesc(d *structDesc) (err error)
-//@   requires d != nil && prefetchStructDescCache != nil
-//@   requires forall i int :: {d.fields[i]} 0 <= i && i < len(d.fields) ==> d.fields[i] != nil && d.fields[i].Type != nil && wfTshape(d.fields[i].Type)
-//@   requires c07_inv: $(pfinv)
-//@   modifies $maps, $brk, $complete, $inprog, "H.tType.Sd"
-//@   ensures c07_inv: $(pfinv)
-//@   ensures c07_stable: $(pfstable)
-//@   ensures c07_mono: $(pfmono)
-//@   ensures c13_clean: $(pfclean)
-//@   ensures c07_inprog: forall k reflect.Type :: {$inprog[k]} $inprog[k] == old($inprog[k])
-//@   ensures old($brk) <= $brk
-//@   loop 0 invariant c07_inv: $(pfinv)
-//@   loop 0 invariant c07_stable: $(pfstable)
-//@   loop 0 invariant c07_mono: $(pfmono)
-//@   loop 0 invariant c13_clean: $(pfclean)
-//@   loop 0 invariant c07_inprog: forall k reflect.Type :: {$inprog[k]} $inprog[k] == old($inprog[k])
-
-//@ func fetchStructDesc(t *tType) (err error)
-//@   requires wfTshape(t) && prefetchStructDescCache != nil
-//@   requires c07_inv: $(pfinv)
-//@   modifies $maps, $brk, $complete, $inprog, "H.tType.Sd"
-//@   ensures c07_inv: $(pfinv)
-//@   ensures c07_stable: $(pfstable)
-//@   ensures c07_mono: $(pfmono)
-//@   ensures c13_clean: $(pfclean)
-//@   ensures c07_inprog: forall k reflect.Type :: {$inprog[k]} $inprog[k] == old($inprog[k])
-//@   ensures old($brk) <= $brk
 
 // ===========================================================================
 // ENCODER
